@@ -188,3 +188,19 @@ Theorem C09_tc_retry_fresh : forall ch label c ch' obs,
   forall l a, In (OTx l a false) obs -> l = label /\ fresh_ok (ch_rotate ch) (ch_servers ch) a.
 Proof. exact truncated_fresh. Qed.
 Print Assumptions C09_tc_retry_fresh.
+
+(* "a success restores it to full priority" under callback re-entrancy: the success of the
+   answering server is recorded (and reported) BEFORE the query completes, so a query that the
+   completion callback starts at once - as ares_search / ares_getaddrinfo do for their next
+   candidate - is selected against a table in which that server has no failures. *)
+Theorem C09_success_before_completion : forall ch label a s ch' obs,
+  wf (ch_servers ch) -> find_attempt label (ch_inflight ch) = Some a -> at_probe a = false ->
+  find_addr (at_server a) (ch_servers ch) = Some s ->
+  step ch (EvAnswer label) = Ok (ch', obs) ->
+  obs = [OGood (at_server a); ODone label ARES_SUCCESS] /\
+  wf (ch_servers ch') /\
+  (exists s', find_addr (at_server a) (ch_servers ch') = Some s' /\ sv_fail s' = 0 /\ sv_idx s' = sv_idx s) /\
+  forall c ch'' obs'', step ch' (EvSend c) = Ok (ch'', obs'') ->
+    forall l b, In (OTx l b false) obs'' -> fresh_ok (ch_rotate ch') (ch_servers ch') b.
+Proof. exact answer_then_send. Qed.
+Print Assumptions C09_success_before_completion.
